@@ -185,6 +185,10 @@ pub mod info {
     pub struct XmlComment { pub comment: String }
     pub struct XmlCData { pub data: String }
 
+    // XmlText::node(..) / XmlCData::node(..) + as_text()/as_cdata(): the freshly built sibling item holds the string
+    pub fn shim_sibling_text(text: String) -> (r: XmlText) ensures r.text@ == text@ { XmlText { text } }
+    pub fn shim_sibling_cdata(data: String) -> (r: XmlCData) ensures r.data@ == data@ { XmlCData { data } }
+
     // ---- extracted from /repo/info/src/lib.rs: methods ----
 @INFO_IMPLS@
 }
@@ -239,6 +243,28 @@ use info::{deleted, spliced, clipped, min_int, shim_str_char_count};
 pub struct XmlText { pub data: info::XmlText }
 pub struct XmlComment { pub data: info::XmlComment }
 pub struct XmlCDataSection { pub data: info::XmlCData }
+
+// Result<String, _>::unwrap_or_default(): the string, or the empty string on Err
+#[verifier::external_body]
+pub fn shim_string_or_default(r: error::Result<String>) -> (out: String)
+    ensures r is Ok ==> out@ == r->Ok_0@, r is Err ==> out@ == Seq::<char>::empty(),
+{
+    r.unwrap_or_default()
+}
+
+// the merged-text view (text_expanded): its data() concatenates the pieces it stands for and can fail (assumed callee)
+pub struct XmlExpandedText { pub pieces: Ghost<Seq<char>>, pub fails: Ghost<bool> }
+impl XmlExpandedText {
+    pub open spec fn view_data(self) -> Seq<char> { if self.fails@ { Seq::<char>::empty() } else { self.pieces@ } }
+    #[verifier::external_body]
+    pub fn data(&self) -> (r: error::Result<String>)
+        ensures self.fails@ ==> r is Err, !self.fails@ ==> r is Ok && r->Ok_0@ == self.pieces@ && r->Ok_0@.len() <= usize::MAX,
+    { unimplemented!() }
+
+    //@@ dom_expanded_length
+
+    //@@ dom_expanded_substring_data
+}
 
 // ---- extracted from /repo/dom/src/lib.rs ----
 @DOM_IMPLS@
@@ -301,8 +327,22 @@ def build():
         N = f'final(self).{fld}@'
         own = f'impl {ity}'
         L = f'info::{ity}'
+        split = f'\n\n        //@@ info_{k}_split_at' if k != 'comment' else ''
         info_impls.append(f'    impl {ity} {{\n        //@@ info_{k}_len\n\n        //@@ info_{k}_substring\n\n'
-                          f'        //@@ info_{k}_delete\n\n        //@@ info_{k}_insert\n    }}\n')
+                          f'        //@@ info_{k}_delete\n\n        //@@ info_{k}_insert{split}\n    }}\n')
+        if k != 'comment':
+            var = 'text2' if k == 'text' else 'data2'
+            getter = 'as_text' if k == 'text' else 'as_cdata'
+            fns[f'info_{k}_split_at'] = Fn(
+                FI, own, 'split_at', props=['C16'], label=f'{L}::split_at',
+                sig_rules=[PUB, Rule('R41', r'-> XmlNode<Self>', f'-> {ity}', 'XmlNode<Self> (Rc<RefCell<Self>>) -> the new item itself (A4)')],
+                skip_global=['R1'],
+                rules=[Rule('R1', rf'self\.{fld}\.chars\(\)\.collect::<Vec<char>>\(\)', f'shim_chars_vec(self.{fld}.as_str())', 'std iterator adapter -> shim (receiver is a String field)'),
+                       Rule('R41', rf'let node = {ity}::node\({var}\.as_str\(\), self\.parent_id\(\), self\.context\(\)\);\s*node\.{getter}\(\)\.unwrap\(\)',
+                            f'shim_sibling_{k}({var})', 'construction of the sibling item (context registration, parent id) -> environment constructor holding the same string')],
+                ensures=[('C16:two_halves_concatenate_to_the_original', f'{N} + r.{fld}@ == {O}'),
+                         ('C16:split_point_is_the_clipped_offset', f'{N}.len() == min_int(offset as int, {O}.len() as int)'),
+                         ('C15:both_halves_stay_valid', f'{accepts}({O}) ==> {accepts}({N}) && {accepts}(r.{fld}@)')])
         fns[f'info_{k}_len'] = Fn(FI, own, 'len', props=['C16'], label=f'{L}::len', sig_rules=[PUB],
                                   ensures=[('C16:counts_characters', f'r == {S}.len()')])
         fns[f'info_{k}_substring'] = Fn(
@@ -364,6 +404,19 @@ def build():
             FD, TR, 'set_data', props=['C16'], label=f'{LD}::set_data (trait default)', sig_rules=[R_MUTSELF],
             ensures=[('C16:replaces_everything', f'info::{accepts}({DO}.subrange(0, 0) + data@ + {DO}.subrange(0, {DO}.len() as int)) ==> r is Ok && {DN} == data@'),
                      ('C13:error_changes_nothing', f'r is Err ==> {DN} == {DO}')])
+    EX = 'impl CharacterData for XmlExpandedText'
+    fns['dom_expanded_length'] = Fn(FD, EX, 'length', props=['C16'], label='dom::XmlExpandedText::length', sig_rules=[PUB],
+                                    rules=[Rule('R5', r'self\.data\(\)\.unwrap_or_default\(\)\.chars\(\)\.count\(\)', 'info::shim_char_count(&shim_string_or_default(self.data()))', 'unwrap_or_default + chars().count() -> shims')],
+                                    skip_global=['R5'],
+                                    ensures=[('C16:counts_characters', 'r == self.view_data().len()')])
+    fns['dom_expanded_substring_data'] = Fn(
+        FD, EX, 'substring_data', props=['C16'], label='dom::XmlExpandedText::substring_data', sig_rules=[PUB], skip_global=['R5', 'R4'],
+        rules=[Rule('R5', r'data\.chars\(\)\.count\(\)', 'info::shim_char_count(&data)', 'chars().count() -> shim'),
+               Rule('R42', r'self\.data\(\)\.unwrap_or_default\(\)', 'shim_string_or_default(self.data())', 'Result::unwrap_or_default -> shim'),
+               Rule('R4', r'data\.chars\(\)\.skip\(offset\)\.take\(count\)\.collect\(\)', 'info::shim_skip_take(&data, offset, count)', 'chars().skip().take().collect() -> shim'),
+               Rule('R16', r'Err\((error::DomException::\w+)\)\?', r'return Err(error::Error::from(\1))', '`Err(x)?` desugared by hand')],
+        ensures=[('C16:offset_past_end_is_index_size_err', 'offset > self.view_data().len() ==> r is Err && error::index_size(r->Err_0)'),
+                 ('C16:count_clipped_to_end', 'offset <= self.view_data().len() ==> r is Ok && r->Ok_0@ == self.view_data().subrange(offset as int, min_int(offset as int + count as int, self.view_data().len() as int))')])
     template = ('use vstd::prelude::*;\nverus! {\n' + INFO_ENV.replace('@P2CHAR@', '    ' + ranges_spec('p2_char', SPEC['p2_char']).replace('\n', '\n    ')).replace('@INFO_IMPLS@', '\n'.join(info_impls))
                 + DOM_ENV.replace('@DOM_IMPLS@', '\n'.join(dom_impls)) + '\n} // verus!\nfn main() {}\n')
     return template, fns
